@@ -445,8 +445,10 @@ _upd(
     "the full clean-verdict statement is refuted for today's table (an OSError on the noqa re-read escapes). The model is compared with "
     "134 (680 thorough) real main() runs with single and multi faults, natural failures and files cut short by the recursion limit. NOT "
     "proved: that no check body raises on any tree — that part is a crash SEARCH (labelled as such): refurb's sources, stdlib sample, "
-    "all-node-kinds corpus, AST mutants and single-site call/string variants of every idiom file, ~80 ill-typed operands under every "
-    "operand template, typing states, encodings/layouts, deep nesting, degenerate command lines, every seen message re-rendered in the "
+    "all-node-kinds corpus, AST mutants and single-site call/string variants of every idiom file (lost / extra / starred / keyword "
+    "arguments, lone surrogates, empty, one-character and newline strings), the exploded layout of generated files (a line break after "
+    "every opening and before every closing bracket), ~80 ill-typed operands under every operand template, programs handed to mypy with "
+    "-c/-m/-p, typing states, encodings/layouts, deep nesting, degenerate command lines, every seen message re-rendered in the "
     "colour and GitHub formats, with the clean-verdict oracle.",
     "The patch points of the fault injection are taken to be the steps of main(); `# noqa` filtering itself is C08's subject; the "
     "exit-1-under---debug case is recorded under C13.",
